@@ -486,7 +486,9 @@ type runner struct {
 }
 
 // runBatch runs the jobs in child processes (restarting after every death) and collects the Case lines.
-func (r *runner) runBatch(worker int, jobs []job) {
+// A job that exceeds its budget is run again, alone, with 4x the budget; only a repeat offender is recorded as a hang
+// (CPU time is inflated on an oversubscribed machine; a real endless loop does not care).
+func (r *runner) runBatch(worker int, jobs []job, scale int) {
 	for len(jobs) > 0 {
 		r.mu.Lock()
 		r.nchild++
@@ -526,15 +528,15 @@ func (r *runner) runBatch(worker int, jobs []job) {
 		done := 0
 		var pending line
 		timedOut := false
-		timer := time.NewTimer(r.deadline)
+		timer := time.NewTimer(time.Duration(scale) * r.deadline)
 		cpu0 := cpuOf(cmd.Process.Pid)
-		limit := r.cpuLimit
+		limit := time.Duration(scale) * r.cpuLimit
 		tick := time.NewTicker(50 * time.Millisecond)
 		handle := func(l line) {
 			switch l["ph"] {
 			case "job":
 				cpu0 = cpuOf(cmd.Process.Pid)
-				limit = r.cpuLimit + r.extra[idOf(l)]
+				limit = time.Duration(scale) * (r.cpuLimit + r.extra[idOf(l)])
 			case "begin":
 				pending = l["l"].(map[string]any)
 			case "case":
@@ -567,7 +569,7 @@ func (r *runner) runBatch(worker int, jobs []job) {
 					default:
 					}
 				}
-				timer.Reset(r.deadline)
+				timer.Reset(time.Duration(scale) * r.deadline)
 				handle(l)
 			case <-tick.C:
 				if len(linesC) > 0 {
@@ -606,6 +608,11 @@ func (r *runner) runBatch(worker int, jobs []job) {
 			r.machErr = append(r.machErr, fmt.Sprintf("child died outside a judged call (job %v, err %v): %s", jobs[minInt(done, len(jobs)-1)], err, tail(se, 1500)))
 			r.mu.Unlock()
 			return
+		}
+		if timedOut && scale == 1 && done < len(jobs) {
+			r.runBatch(worker, jobs[done:done+1], 4)
+			jobs = jobs[done+1:]
+			continue
 		}
 		ev, where := siteOf(se, timedOut)
 		if os.Getenv("VERIF_DEBUG") != "" {
@@ -656,7 +663,7 @@ func (r *runner) runAll(jobs []job, workers, batch int) {
 		go func(w int) {
 			defer wg.Done()
 			for b := range ch {
-				r.runBatch(w, b)
+				r.runBatch(w, b, 1)
 			}
 		}(w)
 	}
@@ -859,7 +866,15 @@ func parentMain(casesPath, outPath, scratch string, seed int64, nmut, workers, r
 		w.Write(b)
 		w.WriteByte('\n')
 	}
-	for _, l := range append(phaseA, phaseB...) {
+	all := append(phaseA, phaseB...)
+	last := map[string]int{} // a job that was re-run reports its earlier calls twice: the last report wins
+	for i, l := range all {
+		last[fmt.Sprint(idOf(l), "/", l["site"])] = i
+	}
+	for i, l := range all {
+		if last[fmt.Sprint(idOf(l), "/", l["site"])] != i {
+			continue
+		}
 		site := fmt.Sprint(l["site"])
 		acc := fmt.Sprint(l["acc"]) == "1"
 		ev := fmt.Sprint(l["ev"])
